@@ -227,12 +227,12 @@ class CEmitter:
             out.append(f"  case {k}: {{ {n}* obj = ({n}*) malloc(sizeof({n})); memset(obj, 0, sizeof({n})); load_{n}(&in, obj); rc = {n}_serialize_(obj, buf, &size); free(obj); break; }}")
         out.append('  default: break; }\n  if (rc == 0 && size > bufsize) { printf("S %d %zu OVERSIZE", rc, size); } else { printf("S %d %zu ", rc, rc == 0 ? size : 0); print_hex(buf, rc == 0 ? size : 0); }\n  printf("\\n"); free(buf); free(w);\n}')
         # D
-        out.append("static void do_D(int ti, char mode, const char* prior_hex, const char* bytes_hex) {\n  size_t nb; uint8_t* b = hex_bytes(bytes_hex, &nb); size_t nw; uint64_t* w = hex_words(prior_hex, &nw); In in = { w, nw, 0 };\n  Out o = { NULL, 0, 0 }; size_t size = nb; int rc = 99;\n  switch (ti) {")
+        out.append("static void do_D(int ti, char mode, const char* prior_hex, const char* bytes_hex) {\n  size_t nb; uint8_t* b = hex_bytes(bytes_hex, &nb); size_t nw; uint64_t* w = hex_words(prior_hex, &nw); In in = { w, nw, 0 };\n  Out o = { NULL, 0, 0 }; size_t size = nb; int rc = 99;\n  /* the empty representation is also passed as (NULL, 0), which the API documents as valid: for every prior state but the fresh one */\n  const uint8_t* bp = (nb == 0 && mode != 'F') ? NULL : b;\n  switch (ti) {")
         for k, n in live:
             out.append(
                 f"  case {k}: {{ {n}* obj; if (mode == 'K') {{ if (!keep_{n}) {{ keep_{n} = ({n}*) malloc(sizeof({n})); {n}_initialize_(keep_{n}); }} obj = keep_{n}; }}"
                 f" else {{ obj = ({n}*) malloc(sizeof({n})); if (mode == 'P') memset(obj, 0xA5, sizeof({n})); else if (mode == 'Z') memset(obj, 0, sizeof({n})); else {n}_initialize_(obj); if (mode == 'V') load_{n}(&in, obj); }}"
-                f" rc = {n}_deserialize_(obj, b, &size); if (rc == 0) dump_{n}(&o, obj); if (mode != 'K') free(obj); break; }}"
+                f" rc = {n}_deserialize_(obj, bp, &size); if (rc == 0) dump_{n}(&o, obj); if (mode != 'K') free(obj); break; }}"
             )
         out.append('  default: break; }\n  printf("D %d %zu ", rc, rc == 0 ? size : 0); if (g_count_exceeds_storage) { printf("!COUNT"); g_count_exceeds_storage = 0; } else { print_words(&o); } printf("\\n"); free(o.w); free(b); free(w);\n}')
         # M (metadata) -- filled by emit_meta
